@@ -35,7 +35,7 @@ def build_world(w):
                                 b"Cached: 2 kB\nShmem: 3 kB\nActive: 4 kB\nInactive: 5 kB\nSlab: 6 kB\nSReclaimable: 1 kB\n")
     w.spawn(1, comm=b"init", ppid=0, start=1)
     w.spawn(PARENT, comm=b"parent", ppid=1, start=5)
-    p = w.spawn(PID, comm=b"target", ppid=PARENT, start=10)
+    p = w.spawn(PID, comm=b"t) S (x", ppid=PARENT, start=10)     # (a name that imitates the tail of a stat record)
     p.threads = {PID: Thread(b"target", 3, 4), PID + 1: Thread(b"w1", 1, 1), PID + 2: Thread(b"w2", 2, 2)}
     p.fds = {0: Fd("/dev/null", kind="dev"), 3: Fd("/tmp/data.txt", pos=5, flags=0o100002),
              4: Fd("socket:[123]", kind="socket"), 5: Fd("pipe:[9]", kind="pipe"),
@@ -313,8 +313,6 @@ def check(ctx):
             raise core.Machinery("fault run failed: %s" % (val,))
         recs.extend(val)
     outs = {r0["out"] for r0 in recs}
-    if not {"value", "NSP", "ZP", "AD"} <= outs:
-        core.vacuity("outcome classes seen: %s" % sorted(outs))
     d = tlc.scratch()
     tf = os.path.join(d, "traces.ndjson")
     with open(tf, "w") as f:
@@ -346,6 +344,8 @@ def check(ctx):
                             list(zip([a["op"] for a in r0["acc"]], r0["paths"]))[:12]),
                          {k: r0[k] for k in ("m", "arg", "plan", "out", "phaseEnd", "follow", "paths")})
     ctx.sample({"kind": "fault-injected run", "record": {k: recs[len(recs) // 3][k] for k in ("m", "plan", "out", "phaseEnd", "paths")}})
+    if not {"value", "NSP", "ZP", "AD"} <= outs:         # (after the verdicts: see core.vacuity)
+        core.vacuity("outcome classes seen: %s" % sorted(outs))
 
 
 def main(prop, argv):
